@@ -35,8 +35,11 @@ def setup_alt():
     global COQ, BUILD, HARNESS, OUTROOT
     root = os.path.join(VERIF, "build", "alt", ALT)
     os.makedirs(root, exist_ok=True)
-    subprocess.run(["rsync", "-a", "--delete", "--exclude", "Gen/*.vo", os.path.join(VERIF, "coq") + "/", os.path.join(root, "coq") + "/"], check=True)
-    subprocess.run(["rsync", "-a", "--delete", os.path.join(VERIF, "harness") + "/", os.path.join(root, "harness") + "/"], check=True)
+    for src, dst, extra in ((os.path.join(VERIF, "coq"), os.path.join(root, "coq"), ["--exclude", "Gen/*.vo"]),
+                            (os.path.join(VERIF, "harness"), os.path.join(root, "harness"), [])):
+        rc = subprocess.run(["rsync", "-a", "--delete"] + extra + [src + "/", dst + "/"]).returncode
+        if rc not in (0, 24):   # 24: a source file vanished while copying (another writer): harmless here
+            raise RuntimeError("rsync failed with %d" % rc)
     gm = os.path.join(root, "harness", "go.mod")
     t = open(gm).read().replace("=> /repo", "=> " + REPO)
     open(gm, "w").write(t)
